@@ -110,4 +110,16 @@ def Block.WF : Block → VarStack → Prop
   | .frame body, v => body.WF (v.step .push)
   | .withIdx k body, v => (match k with | none => True | some j => j ≤ v.size) ∧ body.WF (v.step (.setIdx k))
 
+/-- **Interface with C01** (design/C01.md §3, `XalanModel.Props.C01.walker_eq_recursion` and `variables_balanced`).
+C01 proves for its walker model that the iterative `ElemTemplateElement::execute` loop produces exactly the trace of the
+recursive traversal and leaves the invoker / node-list stacks as they were — *every `startElement` has its
+`endElement`, properly nested* — and that whatever a template instance pushes after its context marker is given back by
+`popContextMarker`.  C06 takes that statement as a hypothesis in this form: the variables-stack operations of one
+transformation are `Block.ops` of a block program `block`, and the explicit indices it passes to
+`pushCurrentStackFrameIndex` lie within the stack (`wf`).  Nothing else about the interpreter is assumed by
+`interpreter_abort_states_midok`. -/
+structure WalkerPairing where
+  block : Block
+  wf : block.WF ⟨0, 0⟩
+
 end XalanModel.C06
